@@ -1852,7 +1852,7 @@ class MacroExpander:
 
         self.parser_stack.append(ExpanderHelper(tokens))
         self.parser_stack[-1].pre_expand = pre_expand
-        self.no_expand.append(str(ident))
+        self.no_expand.append(None if ident is None else str(ident))
 
         try:
             while True:
